@@ -3,6 +3,7 @@ import Hgxv.Model.C14
 import Hgxv.Model.C14Raw
 import Hgxv.Model.C14Trace
 import Hgxv.Model.C14Meta
+import Hgxv.Model.C14Seed
 /-! Line protocol for C14.  State: the loaded hypergraph (argument of the next call).
   `load <weighted> <nodes> <edges natss> <weights> <mds>`                        -> `ok`
   `random <n> <sizes> <counts> <groups natsss>`                                    -> HG | `rej`
@@ -27,6 +28,11 @@ import Hgxv.Model.C14Meta
        events: `0,m` exponential(scale, m) | `1,a,b` swap choice | `2,s,d..` choice(nodes, size=s) = d
        -> HG ` ex ` k ` sw ` k ` ch ` k | `rej` | `stuck`   (complete sequence of np.random calls of a run that returned)
   `sferr <sizes> <counts ints> <scale keys> <corr 0/1> <target|none> <shuffles>` -> number of the ValueError raised by the validation | `none`
+  seeded programs over the named sources (second extension round; a seeded run finds its queue behind `seed`):
+  `addedgeS <inplace> <order|-1> <size|-1> <seed|-1> <ambient py queue> <seeded py queue>`            -> CALL ` left ` k | `rej left ` k
+  `addedgesS <inplace> <k> <order|-1> <size|-1> <seed|-1> <ambient py queue> <seeded py queue>`      -> CALL ` left ` k | `rej left ` k
+  `shuffleS <inplace> <order|-1> <size|-1> <pn> <pd> <preserve> <seed|-1> <py queue> <ambient np queue> <seeded np queue>` -> CALL ` left ` k ` ` k
+  `objM <all_orders 0/1> <inplace>` -> `none` | `same` | `fresh <0/1>` (1: after writes into the fresh object the loaded one holds all its tables)
   `argerr <order|-1> <size|-1> <pn> <pd>` (`pd = 0`: routine without p)          -> 1 | 2 | 3 | `none`
   `loadm <node metadata natss: node,tok> <hypergraph metadata tok> <incidence metadata natss: tok,node,edge..>`  -> `ok`
        (the metadata tables of the loaded hypergraph; a `load` resets them)
@@ -279,6 +285,45 @@ def stepM (m : HGM) : List String → HGM × String
     | some pn, some pd, some sizes, some idxs, some cs =>
       (m, showCallM (randomShuffleAllM m (inpl == "1") pn pd sizes (idxs.zip cs)))
     | _, _, _, _, _ => (m, "bad-op")
+  | ["addedgeS", inpl, order, size, seed, amb, q] =>
+    match natss? amb, natss? q with
+    | some amb, some q =>
+      let sd := optArg seed
+      -- `amb`: what the ambient `random` state hands out (draws recorded BEFORE a `seed` call / all draws of an unseeded
+      -- run), `q`: what the seeded state hands out (draws recorded after the `seed` call)
+      let w : World (List (List Nat)) := { py := amb, np := [] }
+      let r := addRandomEdgeS (replayRNG q) m.core (optArg order) (optArg size) (inpl == "1") sd w
+      (m, showCall r.1 ++ " left " ++ toString r.2.py.length)
+    | _, _ => (m, "bad-op")
+  | ["addedgesS", inpl, k, order, size, seed, amb, q] =>
+    match nat? k, natss? amb, natss? q with
+    | some k, some amb, some q =>
+      let sd := optArg seed
+      let w : World (List (List Nat)) := { py := amb, np := [] }
+      let r := addRandomEdgesS (replayRNG q) m.core k (optArg order) (optArg size) (inpl == "1") sd
+        (amb.length + q.length + 2) w
+      (m, showCall r.1 ++ " left " ++ toString r.2.py.length)
+    | _, _, _ => (m, "bad-op")
+  | ["shuffleS", inpl, order, size, pn, pd, pres, seed, qpy, amb, qnp] =>
+    match int? pn, nat? pd, natss? qpy, natss? amb, natss? qnp with
+    | some pn, some pd, some qpy, some amb, some qnp =>
+      let sd := optArg seed
+      -- `random` is never seeded by the routine: its queue is ambient; `np.random`: `amb` before / without a seed call,
+      -- `qnp` behind the seed
+      let w : World (List (List Nat)) := { py := qpy, np := amb }
+      let c : Choice (List (List Nat)) := fun st _ _ _ => match st with
+        | d :: r => (d, r)
+        | [] => ([], [])
+      let r := randomShuffleS (replayRNG qnp) c m.core (optArg order) (optArg size) (inpl == "1") pn pd (pres == "1") sd w
+      (m, showCall r.1 ++ " left " ++ toString r.2.py.length ++ " " ++ toString r.2.np.length)
+    | _, _, _, _, _ => (m, "bad-op")
+  | ["objM", allo, inpl] =>
+    let r := if allo == "1" then finishObjAllM [(1, m)] 1 (inpl == "1") m else finishObjM [(1, m)] 1 (inpl == "1") m
+    (m, match r.2 with
+        | none => "none"
+        | some i => if i = 1 then "same" else
+            let H := [({} : HGM), { m with hmeta := m.hmeta + 1, nmeta := [], imeta := [] }].foldl (fun G x => poke G i x) r.1
+            "fresh " ++ (if AL.get? H 1 = some m then "1" else "0"))
   | "load" :: rest =>
     let r := step m.core ("load" :: rest)
     ({ core := r.1 }, r.2)
